@@ -3,3 +3,6 @@ open WebPkg.C01
 #print axioms verify_checked
 #print axioms verified_payload_committed
 #print axioms verified_policy
+#print axioms signedMessage_injective
+#print axioms headers_determined_b3
+#print axioms verify_sound_euf
